@@ -66,6 +66,12 @@ def _arg(rng, ph: bool):
     r = rng.random()
     d = _plain(rng)
     if r < 0.55:
+        if rng.random() < 0.25:
+            # the same nested dict under two keys (one shared object on the Python side)
+            sub = {"p": 0.9, "U": {"x": 1, "y": [1, 2]}, _key(rng): "v"}
+            ks = rng.sample([k for k in KEYS if isinstance(k, str)], 2)
+            d[ks[0]] = sub; d[ks[1]] = copy.deepcopy(sub)
+            return {"plain": enc_entries(d), "alias": True}
         return {"plain": enc_entries(d)}
     tb, dph = _tables(rng, ph)
     if dph:
@@ -143,10 +149,25 @@ def _sd_json(s) -> dict:
             "incl": [[i, [e[0], e[1], str(e[2])]] for i, e in s.includes.items()]}
 
 
+def _share(d: dict) -> dict:
+    """make equal dict-valued entries one shared object (Python callers often build arguments that way)"""
+    seen = {}
+    for k, v in list(d.items()):
+        if isinstance(v, dict):
+            key = repr(enc(v))
+            if key in seen:
+                d[k] = seen[key]
+            else:
+                seen[key] = v
+                _share(v)
+    return d
+
+
 def _mk_arg(a: dict):
     if "sd" in a:
         return _mk_sd(a["sd"])
-    return {dec_key(k): dec(v) for k, v in a["plain"]}
+    d = {dec_key(k): dec(v) for k, v in a["plain"]}
+    return _share(d) if a.get("alias") else d
 
 
 def _styled(arg, style):
@@ -193,6 +214,13 @@ def apply_impl(s, d, op):
             s.merge(arg); d = spec.merge_first_wins_selfref(d, copy.deepcopy(darg))
         if enc(impl.plain(dict(arg))) != before:
             notes.append(f"{o} modified its argument")
+        if op["a"].get("alias"):
+            # the argument shared one nested dict under two keys; un-share what ended up in the dicts, so that later
+            # operations do not act through an alias (aliasing is outside the functional model and not what C07 is about)
+            for t in (s, d):
+                for k in list(t.keys()):
+                    if isinstance(t[k], (dict, list)):
+                        dict.__setitem__(t, k, copy.deepcopy(impl.plain(t[k])))
         return s, d, "unit", "unit", notes
     if o == "ror":
         other = {dec_key(k): dec(v) for k, v in op["e"]}
